@@ -209,6 +209,12 @@ impl Stream for ProbeS {
         }
         r
     }
+    fn size_hint(&self) -> (usize, Option<usize>) {
+        match self.inner.as_ref() {
+            Some(s) => s.size_hint(),
+            None => (0, Some(0)),
+        }
+    }
 }
 
 pub enum FNode {
@@ -271,6 +277,12 @@ impl Stream for SNode {
         match self.get_mut() {
             SNode::Leaf(l) => Pin::new(l).poll_next(cx),
             SNode::Inner(p) => Pin::new(p).poll_next(cx),
+        }
+    }
+    fn size_hint(&self) -> (usize, Option<usize>) {
+        match self {
+            SNode::Leaf(l) => l.size_hint(),
+            SNode::Inner(p) => p.size_hint(),
         }
     }
 }
